@@ -23,6 +23,7 @@ import (
 	"net/http"
 	"regexp"
 	"strings"
+	"sync"
 	"time"
 
 	lru "github.com/hashicorp/golang-lru"
@@ -68,7 +69,13 @@ type (
 		headerKey  string
 		pathRegExp *regexp.Regexp
 
-		cache   *lru.Cache
+		cache *lru.Cache
+		// fillMu orders cache fills with invalidations: epoch counts the
+		// snapshots the watcher has processed, and a value that was read from
+		// the store before a snapshot was processed must not be added to the
+		// cache after it (the invalidation would have missed it).
+		fillMu  sync.Mutex
+		epoch   uint64
 		cluster cluster.Cluster
 		stopCtx stdcontext.Context
 		cancel  stdcontext.CancelFunc
@@ -163,6 +170,10 @@ func (hl *HeaderLookup) lookup(headerVal string) (map[string]string, error) {
 		return val.(map[string]string), nil
 	}
 
+	hl.fillMu.Lock()
+	epoch := hl.epoch
+	hl.fillMu.Unlock()
+
 	etcdVal, err := hl.cluster.Get(hl.etcdPrefix + headerVal)
 	if err != nil {
 		return nil, err
@@ -182,7 +193,11 @@ func (hl *HeaderLookup) lookup(headerVal string) (map[string]string, error) {
 		}
 	}
 
-	hl.cache.Add(hl.etcdPrefix+headerVal, result)
+	hl.fillMu.Lock()
+	if hl.epoch == epoch {
+		hl.cache.Add(hl.etcdPrefix+headerVal, result)
+	}
+	hl.fillMu.Unlock()
 	return result, nil
 }
 
@@ -240,10 +255,13 @@ func (hl *HeaderLookup) watchChanges() {
 				return
 			case kvs := <-ch:
 				logger.Infof("HeaderLookup update")
+				hl.fillMu.Lock()
+				hl.epoch++
 				keysToDelete := findKeysToDelete(kvs, hl.cache)
 				for _, cacheKey := range keysToDelete {
 					hl.cache.Remove(cacheKey)
 				}
+				hl.fillMu.Unlock()
 			}
 		}
 	}()
